@@ -176,7 +176,9 @@ autograd plumbing (detach, grad-mode regions, zero_grad / step order, train / ev
 different properties and files per agent. 30 candidates, all re-confirmed (`seeded/Enn-k/`). Several re-discover defects of earlier rounds
 from another angle (the single-feature shortcut of `FeatureList.get`, `all(cost)`, `if dim`, the falsy initial state, the float32 time
 grid, `floor(start / dt)`, the Kou compensator) - those were reported at once. First run against the checks as they stood after §9.4d:
-FIRST5. After the work below all 30 are reported by the check of the property the agent named.
+(re-measured with that version of the checker) 24 reported by the check of the property the agent named, 2 only by another property's check
+(E01-1, E10-3), 1 stopped its own check with an analysis error (E06-2), **3 missed by every check** (E01-3 the float32 bracket of the implied
+volatility, E06-3 the `cached_property`, E07-2 the merged guard). After the work below all 30 are reported by the check of the property the agent named.
 
 | seed | change (one line, from the agent's meta.json) | verdict | checks that report it | first rule |
 |---|---|---|---|---|
